@@ -204,6 +204,7 @@ def run(chk: Check) -> None:
     run_overload_helpers_thread_context(chk, ix)
     run_string_annotation_attrs(chk, ix)
     run_locations_read_before_copied(chk, ix)
+    run_ignored_files_follow_inline_config(chk, ix)
 
     r3 = chk.rule("R14.3", "Errors.report clamps end_line >= line and (same line) end_column > column before the ErrorInfo is built", floor=2)
     rp = ix.func("mypy.errors.Errors.report")
@@ -755,3 +756,39 @@ def run_locations_read_before_copied(chk: Check, ix) -> None:
                 r13.violation(key, f.loc(u.stmt) if u.stmt is not None else f.loc(), f"`{norm(u.stmt)[:70] if u.stmt is not None else x}` reads the position of `{x}` on a path that has not passed `read_loc(data, {x})`: the copy keeps line -1 / column -1 (fastparse sets the position in the constructor call, so the default parser reports the same diagnostic at the `def` line)")
     if n < 8:
         raise AnalysisError(f"nativeparse: only {n} (function, node) pairs with read_loc and a later use of the position found")
+
+
+def run_ignored_files_follow_inline_config(chk: Check, ix) -> None:
+    """R14.14: whether a file's errors are dropped is decided from its options *after* the inline configuration."""
+    from ..cfg import branch_conditions
+    r14 = chk.rule("R14.14", "build.py registers a file in Errors.ignored_files from `state.ignore_all or state.options.ignore_errors` before parsing (State.parse_file, BuildManager.parse_files_threaded_raw). With the default parser the inline `# mypy:` configuration has been applied by then (get_source); with the native parser and in parallel mode it arrives with the parse data and is applied afterwards. Either every such registration is preceded by the inline configuration on all paths, or State.apply_inline_configuration re-evaluates the registration (an `ignored_files.discard(self.xpath)` under the negated condition) after it has replaced self.options: otherwise `# mypy: ignore-errors=False` wins over a config section with one parser and loses with the other", floor=2)
+    b = ix.module("mypy.build")
+    st = ix.cls("mypy.build.State")
+    aic = st.methods.get("apply_inline_configuration")
+    if aic is None:
+        raise AnalysisError("State.apply_inline_configuration not found")
+    par = b.parents()
+    reeval = False
+    for c in ast.walk(aic.node):
+        if isinstance(c, ast.Call) and isinstance(c.func, ast.Attribute) and c.func.attr == "discard" and norm(c.func.value).endswith("ignored_files"):
+            stmt = c
+            while not isinstance(stmt, ast.stmt):
+                stmt = par[stmt]
+            pos, neg = branch_conditions(par, aic.node, stmt)
+            if any("ignore_errors" in norm(t) and isinstance(t, ast.UnaryOp) and isinstance(t.op, ast.Not) for t in pos) or any("ignore_errors" in norm(t) for t in neg):
+                reeval = True
+    n = 0
+    for f in list(b.functions.values()) + [mm for c in b.classes.values() for mm in c.methods.values()]:
+        if f is aic:
+            continue
+        for c in ast.walk(f.node):
+            if not (isinstance(c, ast.Call) and isinstance(c.func, ast.Attribute) and c.func.attr == "add" and norm(c.func.value).endswith("ignored_files")):
+                continue
+            n += 1
+            key = f"build.{f.name}: the registration in ignored_files agrees with the options after inline configuration"
+            if reeval:
+                r14.ok(key, f.loc(c), "apply_inline_configuration re-evaluates the registration")
+            else:
+                r14.violation(key, f.loc(c), "the file is registered from the options as they are before `apply_inline_configuration(raw_data.mypy_comments)` and apply_inline_configuration does not take it out again: with --native-parser / -n N, `# mypy: ignore-errors=False` in a file whose config section says ignore_errors = True leaves all its errors dropped (Success), the default parser reports them")
+    if n < 2:
+        raise AnalysisError(f"build.py: only {n} registrations in ignored_files found")
